@@ -456,7 +456,7 @@ func (w world) RunCase(t *tape.Tape, st *super.Stats) *super.Violation {
 		for n, txt := range texts {
 			os.WriteFile(d+"/"+n+".yang", []byte(txt), 0o644)
 		}
-		os.WriteFile(d+"/DESC", []byte(fmt.Sprintf("ops=%v features=%v filter=%s\n", set.Ops, set.Features, filters[fi].name)), 0o644)
+		os.WriteFile(d+"/DESC", []byte(fmt.Sprintf("ops=%v features=%v filter=%s probes=%v\n", set.Ops, set.Features, filters[fi].name, set.Probes)), 0o644)
 	}
 
 	// R0: reference
